@@ -15,3 +15,24 @@ func VerifC02Parse() {
 	}
 	vReach("end")
 }
+
+var vC02Prefixes = []string{
+	"PRIVMSG ", "NOTICE ", ":n!u@h PRIVMSG ", "@t=v :n!u@h NOTICE ", "CTCP ", "ACTION ", "CTCPREPLY ",
+	"PRIVMSG #c :\001", "NOTICE n :\001", "PRIVMSG", "NOTICE",
+}
+
+// C02 (a'): the same after every prefix that spells a verb the parser and the
+// accessors treat specially (a fully symbolic short string cannot spell them).
+func VerifC02Prefixed() {
+	p := vLen("p", 0, len(vC02Prefixes)-1)
+	n := vLen("n", 0, vParam("L", 4))
+	s := vC02Prefixes[p] + vStr("s", n)
+	vASCII(s)
+	l := ParseLine(s)
+	if l != nil {
+		_ = l.Text()
+		_ = l.Target()
+		_ = l.Public()
+	}
+	vReach("end")
+}
